@@ -9,7 +9,10 @@
 (*             from (first message that is mutated; earlier ones were      *)
 (*             already covered by another case of the same parrot),        *)
 (*             inner (per message: the plaintext Certificate message the   *)
-(*             server compressed into it, else <<>>)]                      *)
+(*             server compressed into it, else <<>>), recs (raw records    *)
+(*             wanted), myrecs (<<type, length>> of the records this side  *)
+(*             wrote), post (longest post-handshake server sequence, 0:    *)
+(*             none)]                                                      *)
 (*   docs:    [name, kind (json|map), doc (tagged JSON tree)]              *)
 (*   hellos:  [name, hs (ClientHello bytes)]  -> tlsfingerprint.io maps    *)
 (*   opt:     [classes, inserts, docclasses]  (what this tier enumerates)  *)
@@ -130,14 +133,40 @@ InnerScnSet(cc, kk, s) ==
   IN { [kind |-> "mut", case |-> f.case, side |-> f.side, msg |-> kk - 1, st |-> s, mkind |-> "compressed_certificate",
         path |-> "inner:" \o N[ms[i].n].p, op |-> ms[i].m.op, cls |-> ms[i].m.cls, sp |-> ms[i].m.sp,
         mode |-> "live", measure |-> GrowsDeclaredLength(ms[i].m), decl |-> FALSE, extw |-> NoExtW, inner |-> TRUE] : i \in DOMAIN ms }
+\* a raw record of every content type and body length 0..20 in place of the record after ChangeCipherSpec
+\* (position: the Finished message of a TLS <= 1.2 flight) or right after the handshake (where = "after")
+RecScn(cc, kk, s, where, idx) ==
+  LET f == Flights[cc] IN
+  { [kind |-> "rec", case |-> f.case, side |-> f.side, msg |-> kk - 1, st |-> s, where |-> where, index |-> idx,
+     rtype |-> RecTypes[t], rlen |-> n, raw |-> RawRecord(RecTypes[t], n),
+     hdr |-> IF where = "replace" THEN f.myrecs[idx + 1] ELSE <<>>] : t \in DOMAIN RecTypes, n \in RecLens }
+RecReplaceSet(cc, kk, s) ==
+  LET f == Flights[cc] IN
+  IF f.recs /\ f.side # "rec" /\ ~CtxOf(cc).v13 /\ f.msgs[kk][1] = 20 /\ RecAfterCCS(f.myrecs) >= 0
+  THEN RecScn(cc, kk, s, "replace", RecAfterCCS(f.myrecs)) ELSE {}
 Mutate == /\ IsFlight /\ scn = None /\ k <= Len(F0.msgs)
-          /\ scn' \in (ScnSet(c, k, st) \cup InnerScnSet(c, k, st))
+          /\ scn' \in (ScnSet(c, k, st) \cup InnerScnSet(c, k, st) \cup RecReplaceSet(c, k, st))
           /\ UNCHANGED <<c, k, st, out>>
 
 \* nothing is rewritten: the untouched flight (must succeed; also the allocation baseline)
 Baseline == /\ IsFlight /\ scn = None /\ k = Len(F0.msgs) + 1
             /\ scn' = [kind |-> "base", case |-> F0.case, side |-> F0.side, msg |-> 0 - 1, st |-> st, mkind |-> "", path |-> "", op |-> "none",
                        cls |-> "none", sp |-> <<>>, mode |-> "live", measure |-> TRUE, decl |-> FALSE, extw |-> NoExtW, inner |-> FALSE]
+            /\ UNCHANGED <<c, k, st, out>>
+
+RecAfter == /\ IsFlight /\ scn = None /\ k = Len(F0.msgs) + 1 /\ F0.recs /\ F0.side # "rec"
+            /\ scn' \in RecScn(c, k, st, "after", 0 - 1)
+            /\ UNCHANGED <<c, k, st, out>>
+
+\* post-handshake phase: the transport of the client's outgoing direction is fixed, then the server sends one
+\* element after the other; every prefix (the empty one included) is a scenario: the client then calls Read, Write, Close
+PostStart == /\ IsFlight /\ scn = None /\ k = Len(F0.msgs) + 1 /\ F0.side = "s" /\ F0.post > 0 /\ CtxOf(c).v13
+             /\ \E t \in DOMAIN Transports :
+                   scn' = [kind |-> "post", case |-> F0.case, side |-> F0.side, msg |-> 0 - 1, st |-> st, tr |-> Transports[t], seq |-> <<>>]
+             /\ UNCHANGED <<c, k, st, out>>
+PostSend == /\ IsFlight /\ scn # None /\ scn.kind = "post" /\ out = "pending" /\ Len(scn.seq) < F0.post
+            /\ (IF scn.seq = <<>> THEN TRUE ELSE scn.seq[Len(scn.seq)] # "close")
+            /\ \E e \in DOMAIN PostKinds : scn' = [scn EXCEPT !.seq = Append(@, PostKinds[e])]
             /\ UNCHANGED <<c, k, st, out>>
 
 \* structured documents: one tree position, one operator
@@ -157,9 +186,10 @@ BaselineDoc == /\ ~IsFlight /\ scn = None
                /\ UNCHANGED <<c, k, st, out>>
 
 \* whatever was sent, the call made by the code under test returns ok or an error
-Resolve == /\ scn # None /\ out = "pending" /\ out' \in (IF scn.op = "none" THEN {"ok"} ELSE Outcomes) /\ UNCHANGED <<c, k, st, scn>>
+Resolve == /\ scn # None /\ out = "pending"
+           /\ out' \in (IF scn.kind \in {"base", "doc", "mut"} /\ scn.op = "none" THEN {"ok"} ELSE Outcomes) /\ UNCHANGED <<c, k, st, scn>>
 
-Next == Deliver \/ Mutate \/ Baseline \/ MutateDoc \/ BaselineDoc \/ Resolve
+Next == Deliver \/ Mutate \/ Baseline \/ RecAfter \/ PostStart \/ PostSend \/ MutateDoc \/ BaselineDoc \/ Resolve
 
 \* ---------------------------------------------------------------- model-level sanity of the captures
 \* the protocol model explains the order of every captured flight
